@@ -127,6 +127,7 @@ def _run(scn, w, res):
     sim = w.sim
     cfg = scn["cfg"]
     nodes, radios = {}, {}
+    mlevel = {}     # nodes whose multicast level was overridden at run time
     default = cfg["prefix"] == 0xCC and cfg["suffix"] == [0xC3, 0x3C, 0x33, 0xCE, 0x3E, 0xE3] and cfg["multicast"]
     crng = stream(scn["seed"], "construct")
     for a in ADDRS:
@@ -144,6 +145,14 @@ def _run(scn, w, res):
             n.node_address = a
         nodes[a], radios[a] = n, r
     by_name = {"n%d" % a: a for a in ADDRS}
+    if cfg["multicast"]:
+        # run-time override of the multicast level on a tenth of the nodes (documented attribute): routing of unicast frames and the
+        # node's own pipes 1-5 must not care; pipe 0 moves to the chosen level's shared address
+        lrng = stream(scn["seed"], "mlevel")
+        for a in ADDRS:
+            if lrng.random() < 0.1:
+                nodes[a].multicast_level = lrng.randint(0, 4)
+                mlevel[a] = nodes[a].multicast_level
     # ---- pipes
     if scn.get("pipes"):
         owner = {}
@@ -162,13 +171,13 @@ def _run(scn, w, res):
             if any(p != 0 for _, p in who):
                 res.add("pipes", {"kind": "address_collision"}, "address %s is listened on by %r" % (addr.hex(), [(oct(a), p) for a, p in who][:6]))
                 break
-            lv = {netref.level(a) for a, _ in who}
+            lv = {mlevel.get(a, netref.level(a)) for a, _ in who}
             if len(lv) != 1 or not cfg["multicast"]:
                 res.add("pipes", {"kind": "pipe0_sharing"}, "pipe-0 address %s is shared by nodes of levels %r" % (addr.hex(), sorted(lv)))
                 break
         if cfg["multicast"]:
             for lv in range(1, 5):
-                members = [a for a in ADDRS if netref.level(a) == lv]
+                members = [a for a in ADDRS if mlevel.get(a, netref.level(a)) == lv]
                 addrs0 = {radios[a].pipe_addr(0) for a in members}
                 if len(addrs0) != 1:
                     res.add("pipes", {"kind": "level_not_shared"}, "level %d nodes listen on %d different pipe-0 addresses" % (lv, len(addrs0)))
@@ -196,12 +205,15 @@ def _run(scn, w, res):
             break
         ref = netref.path(s, d)
         if frng.random() < 0.1:
-            # history: the source's previous transmission failed completely (that neighbour's radio was off the air)
-            nb = [x for x in ([netref.parent(s)] if s else []) + [s | (k << (3 * netref.level(s))) for k in range(1, 6) if netref.level(s) < 4] if x != ref[1]]
+            # history: a node of the route - the source, an intermediate hop or the destination - transmitted before and failed completely
+            # (that neighbour's radio was off the air); it must take part in the walk like any other node
+            s_ = frng.choice(ref)
+            nxt_ = ref[ref.index(s_) + 1] if s_ != ref[-1] else None
+            nb = [x for x in ([netref.parent(s_)] if s_ else []) + [s_ | (k << (3 * netref.level(s_))) for k in range(1, 6) if netref.level(s_) < 4] if x != nxt_]
             if nb:
                 f = frng.choice(nb)
                 radios[f].set_ce(False)
-                nodes[s].write(RF24NetworkFrame(RF24NetworkHeader(f, 1), b"lost"))
+                nodes[s_].write(RF24NetworkFrame(RF24NetworkHeader(f, 1), b"lost"))
                 radios[f].set_ce(True)
                 radios[f].rx_fifo.clear()
                 res.count("walks_after_a_failed_write")
@@ -316,6 +328,54 @@ def _run(scn, w, res):
         w.air.trace.clear()
         res.count("ack_type_pairs_walked")
         res.nontrivial = True
+    # ---- fragmented messages whose origin has to pass a third node's frame on while it waits between two fragments: every
+    # fragment still goes to the next hop of the tree path (the frame to forward and the first fragment's NETWORK_ACK are waiting
+    # in the origin's RX FIFO when write() begins; the nested update() of the wait handles them in that order)
+    grng = stream(scn["seed"], "fragwalk")
+    for (s, d) in (scn.get("ack_pairs") or [])[:12]:
+        if res.violations:
+            break
+        ref = netref.path(s, d)
+        lv_s = netref.level(s)
+        if len(ref) < 3 or lv_s >= 4:
+            continue
+        kids = [s | (k << (3 * lv_s)) for k in range(1, 6)]
+        src_c = grng.choice([c for c in kids if c != ref[1]])
+        # the foreign frame leaves the origin in another direction than the message's own first hop
+        if ref[1] in kids:
+            goal = netref.parent(s) if s else grng.choice([c for c in kids if c not in (ref[1], src_c)])
+        else:
+            goal = grng.choice([c for c in kids if c != src_c])
+        sig = {"src_level": lv_s, "dst_level": netref.level(d), "fragmented": True}
+        for r_ in radios.values():
+            pass
+        radios[s].rx_fifo.clear()
+        radios[s].inject_rx(netref.child_pipe(src_c), netref.pack_header(src_c, goal, 0x7001, 1, 0) + b"pass")
+        radios[s].inject_rx(netref.child_pipe(ref[1]) if ref[1] in kids else 1, netref.pack_header(d, s, 0x7002, 193, 0))
+        w.air.trace.clear()
+        nodes[s].write(RF24NetworkFrame(RF24NetworkHeader(d, 2), bytes(range(40))))
+        frs = [t for t in w.air.trace if by_name.get(t["src"]) == s and not t["ack"] and len(t["data"]) >= 8 and t["data"][6] in (148, 149, 150)]
+        seen_ = []
+        for t in frs:
+            if t["data"] in seen_:
+                continue
+            seen_.append(t["data"])
+            stored = [by_name[n] for (n, oc) in t["rx"] if oc == "stored"]
+            if stored != [ref[1]]:
+                res.add("hop", dict(sig, kind="wrong_next_hop", frame="fragment"),
+                        "%o -> %o (40 bytes): fragment type %d went from %o to pipe address %s and was stored by %r - the tree path continues at %o (the origin passed a frame from %o on to %o between the fragments)"
+                        % (s, d, t["data"][6], s, t["addr"].hex(), [oct(x) for x in stored], ref[1], src_c, goal))
+                break
+        if len(seen_) >= 2:
+            res.count("fragments_after_forwarding_in_between")
+        for t in w.air.trace:
+            for (n, oc) in t["rx"]:
+                if oc == "stored" and n in by_name:
+                    radios[by_name[n]].rx_fifo.clear()
+                    radios[by_name[n]].flags = 0
+        radios[s].rx_fifo.clear()
+        nodes[s].update()
+        w.air.trace.clear()
     # ---- multicasts
     rng = stream(scn["seed"], "mc")
     if cfg["multicast"]:
@@ -329,7 +389,7 @@ def _run(scn, w, res):
                 s, L = [(0, 0), (0o1, 1)][k_]    # senders whose own address is the level's representative address
                 arg = L
             elif rng.random() < 0.4:
-                L, arg = netref.level(s), None   # default: the sender's own level
+                L, arg = mlevel.get(s, netref.level(s)), None   # default: the sender's own (or overridden) level
             w.air.trace.clear()
             try:
                 nodes[s].multicast(b"mc", 2, arg)
@@ -340,7 +400,7 @@ def _run(scn, w, res):
                 break
             pk = [t for t in w.air.trace if not t["ack"]]
             got = sorted(by_name[n] for t in pk for (n, oc) in t["rx"] if oc == "stored")
-            want = sorted(a for a in ADDRS if netref.level(a) == L and a != s)
+            want = sorted(a for a in ADDRS if mlevel.get(a, netref.level(a)) == L and a != s)
             if len(pk) != 1 or got != want:
                 res.add("mcast", {"kind": "multicast_receivers", "level": L}, "multicast from %o to level %d: %d packets, stored by %d radios (levels %r), level has %d other nodes"
                         % (s, L, len(pk), len(got), sorted({netref.level(a) for a in got}), len(want)))
